@@ -491,3 +491,183 @@ def rule_negation_overflow(chk, rid):
                 chk.violation(rid, b.file, i["name"], "call of %s" % c.rsplit("::", 1)[1],
                               "%s panics on overflow (iN::MIN) in builds with overflow checks; use the wrapping_/checked_ variant" % c, detail=d,
                               loc="%s:%d" % (b.file, b.line))
+
+
+def rule_char_count_as_byte_index(chk, rid):
+    """R04g: a number of characters never indexes/slices a str (byte offsets): `&s[n..]` with n derived from Chars::count panics on a
+    non-ASCII prefix ('byte index is not a char boundary')"""
+    import p_c33
+    facts = chk.facts
+    chk.rule(rid, "no str index/slice bound is computed from a character count (Chars::count / count over an adaptor of Chars)", floor=60)
+    STR_INDEX = re.compile(r"str as std::ops::Index<|impl std::ops::Index<.*> for str>::index$|core::str::<impl str>::(get|split_at|split_at_checked|get_unchecked|is_char_boundary)$|"
+                           r"std::string::String as std::ops::Index<|SliceIndex<str>")
+    n = 0
+    for name in facts.grep("Index<", "split_at", "::get"):
+        b = facts.body(name)
+        if b.kind in ("const", "static", "promoted") or "/build/" in b.file or name.startswith("cli::"):
+            continue
+        for bb, t in b.calls():
+            cal = b.callee(t)
+            full = t.get("rfn_full") or t.get("fn_full") or ""
+            if not (STR_INDEX.search(cal) or STR_INDEX.search(full)):
+                continue
+            if "str" not in full and "String" not in full:
+                continue
+            n += 1
+            bad = None
+            for a in t["args"][1:]:
+                l = op_local(a)
+                if l is None:
+                    continue
+                # range aggregates: look at their bounds; plain usize: the value itself
+                exprs = []
+                for x in cfgq.ref_chain(b, l):
+                    for kind, dbb, dsi, dx in b.defs().get(x, []):
+                        if kind == "stmt" and dx["rv"]["k"] == "agg" and "ops::Range" in (dx["rv"].get("adt") or ""):
+                            exprs += [p_c33.expr_of(b, op) for op in dx["rv"]["ops"]]
+                if not exprs:
+                    exprs = [p_c33.expr_of(b, a)]
+                for tr in exprs:
+                    for e in p_c33.walk(tr):
+                        if e[0] == "call" and (e[1].endswith("Iterator::count") or e[1].endswith("Iterator>::count")) and "Chars" in (e[3] or ""):
+                            bad = e[3]
+            d = {"fn": name, "at": "%s:%s" % (b.file, t["ln"]), "index_call": cal.rsplit("::", 2)[-2:] if "::" in cal else cal, "char_count_source": bad}
+            chk.instance(rid, d, ok=not bad)
+            if bad:
+                chk.violation(rid, b.file, name, "str indexed with a character count",
+                              "a str is sliced/indexed at an offset computed from %s: for text with a multi-byte character in the counted prefix the offset is "
+                              "not a character boundary and the host panics" % bad.split(" as ")[0][:80], detail=d, loc=d["at"])
+    chk.extra["str_index_sites"] = n
+
+
+ZERO_INTOLERANT = re.compile(r"core::slice::<impl \[T\]>::(chunks|chunks_exact|windows|rchunks|chunks_mut|rchunks_exact|chunks_exact_mut)$|Iterator::step_by$|"
+                             r"core::num::<impl [iu](8|16|32|64|128|size)>::(div_euclid|rem_euclid|div_ceil|next_multiple_of)$")
+
+
+def value_roots(b, op, depth=0):
+    """locals an integer operand is computed from through casts / From::from / copies"""
+    l = op_local(op)
+    out = set()
+    if l is None or depth > 6:
+        return out
+    out.add(l)
+    for kind, dbb, dsi, dx in b.defs().get(l, []):
+        if kind == "stmt" and dx["rv"]["k"] in ("use", "cast"):
+            out |= value_roots(b, dx["rv"]["op"], depth + 1)
+        elif kind == "call" and re.search(r"::(from|into|try_from|try_into|unwrap|expect|unwrap_or|clone)$", b.callee(dx)) and dx["args"]:
+            out |= value_roots(b, dx["args"][0], depth + 1)
+    return out
+
+
+def guarded_here(b, roots, site_bb):
+    al = set()
+    for r in roots:
+        al |= alias_set(b, r)
+    gs = [(gb, why) for gb, why in order_guards(b, al) if gb != site_bb and b.dominates(gb, site_bb)]
+    # equality tests against a constant also exclude zero (`== 0`, `!= 0`, match on 0)
+    for bi, si, st in b.iter_stmts():
+        rv = st["rv"]
+        if rv["k"] == "binop" and rv["op"] in ("Eq", "Ne") and (mentions(b, rv["a"], al) or mentions(b, rv["b"], al)) and bi != site_bb and b.dominates(bi, site_bb):
+            gs.append((bi, "comparison %s at line %s" % (rv["op"], st.get("ln"))))
+    for bi, t in b.iter_terms("switch"):
+        if op_local(t["op"]) in al and bi != site_bb and b.dominates(bi, site_bb) and any(v == "0" for v, _ in t["targets"]):
+            gs.append((bi, "switch on the value with a 0 arm at line %s" % t.get("ln")))
+    return gs
+
+
+def rule_zero_intolerant(chk, rid):
+    """R04h: integer division/remainder and chunks()/windows()/step_by() never receive an unchecked run-time zero"""
+    facts = chk.facts
+    chk.rule(rid, "divisors, chunk/window/step sizes and checked shift amounts are constants or guarded by a comparison (here or at every caller)", floor=3)
+    sites = []
+    for i in facts.index:
+        n = i["name"]
+        if "/build/" in i["file"] or n.startswith("cli::") or n.startswith("<cli::"):
+            continue
+        if any(ZERO_INTOLERANT.search(c) for c in i["callees"]):
+            b = facts.body(n)
+            for bb, t in b.calls():
+                if ZERO_INTOLERANT.search(b.callee(t)) and len(t["args"]) > 1:
+                    sites.append((b, bb, t["args"][1], b.callee(t).rsplit("::", 1)[1], t["ln"]))
+    for n in facts.grep("DivisionByZero", "RemainderByZero"):
+        b = facts.body(n)
+        if "/build/" in b.file or b.kind in ("const", "static", "promoted") or n.startswith("cli::"):
+            continue
+        for bb, t in b.iter_terms("assert"):
+            if not (t.get("msg") or "").startswith(("DivisionByZero", "RemainderByZero")):
+                continue
+            # the guarded operation is the Div/Rem in the successor block
+            for nb in b.succ(bb):
+                for s in b.stmts(nb):
+                    if s["rv"]["k"] == "binop" and s["rv"]["op"] in ("Div", "Rem") and s["rv"]["tya"] != "f64":
+                        sites.append((b, bb, s["rv"]["b"], s["rv"]["op"], s.get("ln")))
+    # checked shifts: the amount must be provably below the bit width (constant, masked, or compared)
+    for n in facts.grep('"ovop":"Shl"', '"ovop":"Shr"'):
+        b = facts.body(n)
+        if "/build/" in b.file or b.kind in ("const", "static", "promoted") or n.startswith("cli::"):
+            continue
+        for bb, t in b.iter_terms("assert"):
+            if t.get("ovop") not in ("Shl", "Shr"):
+                continue
+            amount = None
+            for nb in [bb] + b.succ(bb):
+                for s in b.stmts(nb):
+                    if s["rv"]["k"] == "binop" and s["rv"]["op"] in ("Shl", "Shr", "ShlUnchecked", "ShrUnchecked"):
+                        amount = s["rv"]["b"]
+            if amount is not None:
+                sites.append((b, bb, amount, "shift " + t["ovop"], t["ln"]))
+    for b, bb, op, what, ln in sites:
+        d = {"fn": b.name, "at": "%s:%s" % (b.file, ln), "operation": what}
+        if op.get("k") == "const":
+            ok = str(op.get("int")) not in ("0", "None")
+            d["discharged_by"] = "constant %s" % op.get("int")
+            chk.instance(rid, d, ok=ok)
+            if not ok:
+                chk.violation(rid, b.file, b.name, "%s by constant zero" % what, "%s with a zero constant" % what, detail=d, loc=d["at"])
+            continue
+        if what.startswith("shift"):
+            # a comparison against an upper bound does not bound `width - x`; accept only masked amounts
+            masked = False
+            l = op_local(op)
+            for x in (cfgq.ref_chain(b, l) if l is not None else []):
+                for kind, dbb, dsi, dx in b.defs().get(x, []):
+                    if kind == "stmt" and dx["rv"]["k"] == "binop" and dx["rv"]["op"] in ("BitAnd", "Rem") and \
+                            (dx["rv"]["a"].get("k") == "const" or dx["rv"]["b"].get("k") == "const"):
+                        masked = True
+            d["discharged_by"] = "amount masked with a constant" if masked else None
+            chk.instance(rid, d, ok=masked)
+            if not masked:
+                chk.violation(rid, b.file, b.name, "checked %s by a run-time amount" % what,
+                              "`<<`/`>>` by a run-time amount that can equal the bit width overflows (panic with overflow checks, wrong mask otherwise), "
+                              "e.g. a `/0` subnet; use checked_shl/checked_shr or mask the amount", detail=d, loc=d["at"])
+            continue
+        roots = value_roots(b, op)
+        gs = guarded_here(b, roots, bb)
+        if gs:
+            d["discharged_by"] = gs[0][1]
+            chk.instance(rid, d, ok=True)
+            continue
+        params = [r for r in roots if 1 <= r <= b.argc]
+        ok = False
+        if params:
+            callers = [c for c in facts.callers(b.name) if facts.has(c)]
+            ok = bool(callers)
+            for c in callers:
+                cb = facts.body(c)
+                for cbb, ct in cb.calls():
+                    if cb.callee(ct) != b.name:
+                        continue
+                    k = params[0] - 1
+                    if k >= len(ct["args"]):
+                        ok = False
+                        continue
+                    croots = value_roots(cb, ct["args"][k])
+                    if ct["args"][k].get("k") == "const" or guarded_here(cb, croots, cbb):
+                        d.setdefault("discharged_by", "guarded at caller %s" % c.rsplit("::", 1)[-1])
+                    else:
+                        ok = False
+        chk.instance(rid, d, ok=ok)
+        if not ok:
+            chk.violation(rid, b.file, b.name, "%s with unchecked run-time operand" % what,
+                          "`%s` receives a run-time value that is never compared against zero (here or at its callers): a zero argument panics the host "
+                          "(chunks/windows/step_by) or divides by zero" % what, detail=d, loc=d["at"])
